@@ -172,15 +172,20 @@ def variants(ctx, np, tier, delay_scale):
     s = ctx.seed
     reps = []
     if not np:
+        # fill bytes: 0x55 (int 1431655765, double 1.2e103), 0xAA (negative int, double -3.7e-103), 0x40 (double 32.5),
+        # 0xBF (double -0.12), 0x00 (masks a missing zero-init), 0xFF (int -1 = REF_EMPTY, double NaN)
         fill = lambda b: 'detect_leaks=0:exitcode=99:malloc_fill_byte=%d:max_malloc_fill_size=1073741824' % b
+        na = ['setarch', '-R'] if have_setarch() else []
         reps.append(('asan-fill55', 'asan', [], {'ASAN_OPTIONS': fill(0x55)}))
-        reps.append(('asan-fillAA-noaslr' if have_setarch() else 'asan-fillAA', 'asan',
-                     ['setarch', '-R'] if have_setarch() else [], {'ASAN_OPTIONS': fill(0xAA)}))
-        reps.append(('plain-perturb85', 'plain', [], {'MALLOC_PERTURB_': '85'}))
-        reps.append(('plain-perturb170', 'plain', [], {'MALLOC_PERTURB_': '170'}))
+        reps.append(('asan-fillBF-noaslr' if na else 'asan-fillBF', 'asan', na, {'ASAN_OPTIONS': fill(0xBF)}))
+        reps.append(('plain-perturb85-fillAA', 'plain', [], {'MALLOC_PERTURB_': '85'}))
+        reps.append(('plain-perturb191-fill40', 'plain', [], {'MALLOC_PERTURB_': '191'}))
+        reps.append(('plain-perturb170-fill55', 'plain', [], {'MALLOC_PERTURB_': '170'}))
+        reps.append(('plain-perturb255-fill00-noaslr' if na else 'plain-perturb255-fill00', 'plain', na,
+                     {'MALLOC_PERTURB_': '255'}))
         if tier == 'thorough':
-            reps.append(('plain-perturb255-noaslr' if have_setarch() else 'plain-perturb255', 'plain',
-                         ['setarch', '-R'] if have_setarch() else [], {'MALLOC_PERTURB_': '255'}))
+            reps.append(('asan-fill40', 'asan', [], {'ASAN_OPTIONS': fill(0x40)}))
+            reps.append(('plain-perturb1-fillFE', 'plain', [], {'MALLOC_PERTURB_': '1'}))
             reps.append(('plain-noperturb', 'plain', [], {'MALLOC_PERTURB_': '0'}))
         return reps
     dl = lambda k: {'REF_VERIF_DELAY_SEED': str(1 + (s * 101 + k * 7919) % 100000),
@@ -188,13 +193,13 @@ def variants(ctx, np, tier, delay_scale):
     e0 = {'MALLOC_PERTURB_': '85', 'OMPI_MCA_mpi_yield_when_idle': '1'}
     e0.update(dl(0))
     reps.append(('mpi-perturb85-yield-delayA', 'mpi', [], e0))
-    e1 = {'MALLOC_PERTURB_': '170', 'OMPI_MCA_mpi_yield_when_idle': '0' if np <= 4 else '1'}
+    e1 = {'MALLOC_PERTURB_': '191', 'OMPI_MCA_mpi_yield_when_idle': '0' if np <= 4 else '1'}
     e1.update(dl(1))
-    reps.append(('mpi-perturb170-spin-delayB' if np <= 4 else 'mpi-perturb170-yield-delayB', 'mpi', [], e1))
-    e2 = {'MALLOC_PERTURB_': '255', 'OMPI_MCA_mpi_yield_when_idle': '1'}
+    reps.append(('mpi-perturb191-spin-delayB' if np <= 4 else 'mpi-perturb191-yield-delayB', 'mpi', [], e1))
+    e2 = {'MALLOC_PERTURB_': '170', 'OMPI_MCA_mpi_yield_when_idle': '1'}
     e2.update(dl(2))
     pre = []
-    lab = 'mpi-perturb255-delayC'
+    lab = 'mpi-perturb170-delayC'
     if have_setarch():
         pre += ['setarch', '-R']
         lab += '-noaslr'
@@ -207,6 +212,9 @@ def variants(ctx, np, tier, delay_scale):
     if tier == 'thorough':
         e3 = {'MALLOC_PERTURB_': '0', 'OMPI_MCA_mpi_yield_when_idle': '1'}
         reps.append(('mpi-noperturb-nodelay', 'mpi', [], e3))
+        e4 = {'MALLOC_PERTURB_': '255', 'OMPI_MCA_mpi_yield_when_idle': '1'}
+        e4.update(dl(3))
+        reps.append(('mpi-perturb255-delayD', 'mpi', [], e4))
     return reps
 
 
@@ -397,8 +405,10 @@ def gen_repro(rng, tier):
             dim = rng.choice([2, 3])
             n = [rng.randint(2, 4) for _ in range(dim)]
             rn = [rng.randint(2, 5) for _ in range(dim)]
-            ops.append('interp dim=%d n=%s jitter=%.2f mseed=%d ldim=%d field=gen:%.2f,%.2f,%.2f rn=%s rseed=%d rjitter=%.2f%s' % (
-                dim, ','.join(map(str, n)), rng.choice([0, 0.3]), rng.randint(1, 10 ** 6), rng.randint(1, 6),
+            # one boundary id: no corner ("geometry") node seeds the donor walk, every receptor node goes through the
+            # search-tree fallback; four/six ids: located by walking
+            ops.append('interp dim=%d n=%s jitter=%.2f patches=%s mseed=%d ldim=%d field=gen:%.2f,%.2f,%.2f rn=%s rseed=%d rjitter=%.2f%s' % (
+                dim, ','.join(map(str, n)), rng.choice([0, 0.3]), rng.choice(['one', 'one', 'sides']), rng.randint(1, 10 ** 6), rng.randint(1, 6),
                 rng.uniform(0.5, 6), rng.uniform(0.5, 6), rng.uniform(0.5, 6), ','.join(map(str, rn)),
                 rng.randint(1, 10 ** 6), rng.choice([0, 0.3]), tail(np, full=False)))
         for _ in range(2):
@@ -496,8 +506,8 @@ def gen_memcheck(rng, tier):
         lambda: 'adapt dim=2 n=2,%d jitter=0.30 patches=sides mseed=%d metric=uniform:%.3f passes=2' % (rng.randint(2, 3), ms(), rng.uniform(0.2, 0.4)),
         lambda: 'multiscale dim=3 n=2,2,2 jitter=0.30 mseed=%d field=poly:1.00,-2.00,0.50,1.50,0.30 complexity=200 p=2 grad=1.5' % ms(),
         lambda: 'multiscale dim=2 n=3,3 jitter=0 mseed=%d field=sin:3.00,2.00,0.00 complexity=100' % ms(),
-        lambda: 'interp dim=3 n=2,2,2 jitter=0.30 mseed=%d ldim=2 field=gen:1.00,2.00,3.00 rn=2,3,2 rseed=%d rjitter=0.30' % (ms(), ms()),
-        lambda: 'interp dim=2 n=3,3 jitter=0 mseed=%d ldim=1 field=gen:2.00,1.00,0.50 rn=4,3 rseed=%d rjitter=0.30' % (ms(), ms()),
+        lambda: 'interp dim=3 n=2,2,2 jitter=0.30 patches=%s mseed=%d ldim=2 field=gen:1.00,2.00,3.00 rn=2,3,2 rseed=%d rjitter=0.30' % (rng.choice(['one', 'sides']), ms(), ms()),
+        lambda: 'interp dim=2 n=3,3 jitter=0 patches=one mseed=%d ldim=1 field=gen:2.00,1.00,0.50 rn=4,3 rseed=%d rjitter=0.30' % (ms(), ms()),
         lambda: 'distance dim=3 n=2,2,2 jitter=0.30 mseed=%d len=1,1,1 walls=1,3' % ms(),
         lambda: 'distance dim=2 n=4,3 jitter=0 mseed=%d len=1,1 walls=2' % ms(),
         lambda: 'translate mesh=box n=1,2,1 jitter=0.30 mseed=%d in=meshb out=lb8.ugrid mv=2' % ms(),
